@@ -204,7 +204,11 @@ func (f *Frame) loopEffects(li *loopInfo) *effectSet {
 func (f *Frame) loopNames(li *loopInfo, phiVals map[*ssa.Phi]string) map[string]*specBinding {
 	vc := f.vc
 	names := map[string]*specBinding{}
-	for k, v := range f.names {
+	base := f.names
+	if f.top && f.loopCon != nil && f.loopNamesBase != nil {
+		base = f.loopNamesBase
+	}
+	for k, v := range base {
 		names[k] = v
 	}
 	h := li.header
@@ -279,6 +283,11 @@ func identName(d *ssa.DebugRef) string {
 }
 
 func (f *Frame) loopSpec(li *loopInfo) *LoopSpec {
+	if f.top && f.loopCon != nil {
+		// verifying against an interface-method contract: the loop invariants are
+		// those of the function's own contract
+		return f.loopCon.Loops[li.ordinal]
+	}
 	if f.top && f.con != nil {
 		return f.con.Loops[li.ordinal]
 	}
@@ -601,6 +610,12 @@ func verifyFunction(P *Program, SS *SpecSet, G *Globals, fn *ssa.Function, con *
 	st := &State{heap: map[string]string{}, alloc: "alloc0"}
 	f := vc.newFrame(fn, true, 0)
 	f.con = con
+	if con.Iface {
+		if own := SS.Contracts[canonName(fn)]; own != nil {
+			f.loopCon = own
+			f.loopNamesBase = map[string]*specBinding{}
+		}
+	}
 	vc.topFrame = f
 	sig := fn.Signature
 	_ = sig
@@ -615,6 +630,15 @@ func verifyFunction(P *Program, SS *SpecSet, G *Globals, fn *ssa.Function, con *
 		}
 		if nm != "_" && nm != "" {
 			f.names[nm] = &specBinding{V: vc.sv(t, p.Type())}
+		}
+		if f.loopCon != nil {
+			onm := p.Name()
+			if i < len(f.loopCon.Params) {
+				onm = f.loopCon.Params[i]
+			}
+			if onm != "_" && onm != "" {
+				f.loopNamesBase[onm] = &specBinding{V: vc.sv(t, p.Type())}
+			}
 		}
 	}
 	var fvs []*Val
